@@ -10,6 +10,7 @@
 #include <cstdio>
 #include <map>
 #include <string>
+#include <iterator>
 #include <vector>
 #include <memory>
 #include <type_traits>
@@ -172,10 +173,28 @@ template<class V> std::string seq_probe(const std::string& name, const V& v)
          for (auto it = v.begin(); it != v.end();) { auto old = it++; if (fwdp < n and fwdp < 200) agree2 = agree2 and (&*old == &*v.position(fwdp)); ++fwdp; if (fwdp > n + 4) break; }
          return std::string("ok");
       });
+      // strided walks through the standard library's iterator algorithms, forwards and on reverse iterators (they use whatever
+      // stepping operations the iterator offers: ++/-- one at a time, or += / -= when it says it is random access)
+      bool agree3 = true;
+      auto walk3 = guarded([&] {
+         if (n >= 1) {
+            for (std::size_t stride : { std::size_t(1), std::size_t(2), std::size_t(3) }) {
+               std::size_t at = 0;
+               for (auto it = v.begin(); at < n and at < 120; at += stride) { agree3 = agree3 and (&*it == &*v.position(at)); if (at + stride < n) std::advance(it, stride); else break; }
+               auto rit = std::make_reverse_iterator(v.end());
+               for (std::size_t k = 0; k < n and k < 120; k += stride) { agree3 = agree3 and (&*rit == &*v.position(n - 1 - k)); if (k + stride < n) std::advance(rit, stride); else break; }
+            }
+            auto mid = std::next(v.begin(), n / 2);
+            agree3 = agree3 and (&*mid == &*v.position(n / 2)) and (n < 2 or &*std::prev(mid, n / 2) == &*v.position(0));
+         }
+         return std::string("ok");
+      });
       s += "n" + std::to_string(n) + (walk == "ok" ? "" : ":WALK-" + walk) + (count == n or walk != "ok" ? "" : ":COUNT" + std::to_string(count)) + (agree ? "" : ":DISAGREE");
       if (walk2 != "ok") s += ":WALK2-" + walk2;        // backwards / postfix walks (a refusal here is legitimate only if the forward walk was refused too)
       else if (back != n or backp != n or fwdp != n) s += ":COUNT" + std::to_string(back) + "/" + std::to_string(backp) + "/" + std::to_string(fwdp);
       if (not agree2) s += ":DISAGREE";
+      if (walk3 != "ok" and walk == "ok") s += ":WALK3-" + walk3;      // strided walks are refused although the plain forward walk is not
+      if (not agree3) s += ":DISAGREE";
       const std::size_t idx[] = { n, n + 1, n + 1000000, std::size_t(-1) / 2, std::size_t(-1) };
       for (auto i : idx) s += ":" + guarded([&] { (void) &*v.position(i); return std::string("ACCEPTED"); });
       return s + " ";
